@@ -240,6 +240,19 @@ Theorem C03_reads_through : forall allowed cs, exists w, read_so_far None allowe
 Proof. exact no_expectation_reads_through. Qed.
 Print Assumptions C03_reads_through.
 
+(* read_so_far does NOT exclude inspectors that raise: an exception of a non-expected inspector never reaches the
+   reader (C06); the wrapper freezes that inspector (errored set) in the state eat_chunk left behind.  The slots
+   after the reads cs are exactly: the inspector fed up to its first exception, and the errored flag *)
+Theorem C03_frozen_slots : forall expected allowed cs w,
+  read_so_far expected allowed cs w ->
+  w_slots w = map (slot_after cs) (allowed_fmts allowed) /\ w_finished w = false /\ w_expected w = expected.
+Proof. exact read_so_far_slots. Qed.
+Print Assumptions C03_frozen_slots.
+Example C03_ex_frozen :
+  exists w, read_and_closed None [] ex_frozen w /\ cw_format_name w = Ok (Some (fmt_name F_vmdk)) /\
+            s_err (slot_closed ex_frozen F_vmdk) = true /\ In (slot_closed ex_frozen F_vmdk) (w_slots w).
+Proof. exact ex_frozen_run. Qed.
+
 (* file-like sources: for every file content and every sequence of read sizes, the reads (none raising) are a
    read-through of the chunk list delivered, whose concatenation is the part of the file that was read *)
 Theorem C03_file_reads : forall expected allowed data sizes w' s' tr delivered,
